@@ -34,6 +34,8 @@ type pg struct {
 	nums   []string // locals that hold numbers on every path
 	strs   []string // locals that hold strings on every path
 	idxs   []string // locals that hold 1, 2 or 3 on every path (concrete table keys)
+	objs   []string // locals that hold objects with the metatable MT (only when meta is set)
+	meta   bool     // the program declares MT and uses metamethods
 	anys   []string // locals of any kind
 	tabs   []string // locals holding tables used as records (fields a, b and [1..3])
 	fns    []pgFn
@@ -79,6 +81,25 @@ func (g *pg) lit() string { return pgLits[g.r(len(pgLits))] }
 
 // num yields an expression that is a number on every path.
 func (g *pg) num(d int) string {
+	if len(g.objs) > 0 && d > 0 && g.r(6) == 0 {
+		o := g.pick(g.objs)
+		switch g.r(7) {
+		case 0:
+			return "(" + o + " + " + g.num(d-1) + ")"
+		case 1:
+			return "(" + g.num(d-1) + " - " + o + ")"
+		case 2:
+			return "(" + o + " + " + g.pick(g.objs) + ")"
+		case 3:
+			return "(-" + o + ")"
+		case 4:
+			return "(" + o + "(" + g.num(0) + "))"
+		case 5:
+			return o + ".v"
+		default:
+			return "(" + g.num(d-1) + " + " + o + ")"
+		}
+	}
 	c := g.r(12)
 	if d <= 0 && c >= 7 {
 		c = g.r(7)
@@ -194,6 +215,29 @@ func (g *pg) cond(d int) string {
 
 // anyx yields an expression of any kind and reports whether it is certainly a number.
 func (g *pg) anyx(d int) (string, bool) {
+	if len(g.objs) > 0 && g.r(7) == 0 {
+		o, o2 := g.pick(g.objs), g.pick(g.objs)
+		switch g.r(9) {
+		case 0:
+			return "(" + o + " .. 's')", false
+		case 1:
+			return "('s' .. " + o + ")", false
+		case 2:
+			return "(" + o + " == " + o2 + ")", false
+		case 3:
+			return "(" + o + " ~= " + o2 + ")", false
+		case 4:
+			return "(" + o + " < " + o2 + ")", false
+		case 5:
+			return "(" + o + " <= " + o2 + ")", false
+		case 6:
+			return "(" + o + " > " + o2 + ")", false
+		case 7:
+			return o + []string{".zz", "[1]", ".v", ".k"}[g.r(4)], false
+		default:
+			return o + "(" + g.explistStr(g.r(3), true) + ")", false
+		}
+	}
 	switch g.r(19) {
 	case 14:
 		// a literal operand that decides (or is) the result of and/or
@@ -341,14 +385,14 @@ func (g *pg) call(f pgFn) string {
 	return f.name + "(" + a + ")"
 }
 
-type pgScope struct{ n, a, t, f, c, s, i int }
+type pgScope struct{ n, a, t, f, c, s, i, o int }
 
 func (g *pg) enter() pgScope {
-	return pgScope{len(g.nums), len(g.anys), len(g.tabs), len(g.fns), len(g.ctrs), len(g.strs), len(g.idxs)}
+	return pgScope{len(g.nums), len(g.anys), len(g.tabs), len(g.fns), len(g.ctrs), len(g.strs), len(g.idxs), len(g.objs)}
 }
 func (g *pg) leave(s pgScope) {
 	g.nums, g.anys, g.tabs, g.fns, g.ctrs = g.nums[:s.n], g.anys[:s.a], g.tabs[:s.t], g.fns[:s.f], g.ctrs[:s.c]
-	g.strs, g.idxs = g.strs[:s.s], g.idxs[:s.i]
+	g.strs, g.idxs, g.objs = g.strs[:s.s], g.idxs[:s.i], g.objs[:s.o]
 }
 
 func (g *pg) block(sb *strings.Builder, n int) {
@@ -423,7 +467,7 @@ func pgClash(seen map[string]bool, key string) bool {
 
 func (g *pg) stmt(sb *strings.Builder) {
 	g.budget--
-	c := g.r(38)
+	c := g.r(40)
 	if g.multi >= 3 && (c >= 15 && c <= 18 || c == 33 || c == 29 || c == 35) {
 		c = 9 // no loop inside three levels of loops / function bodies: programs stay short-running
 	}
@@ -453,6 +497,15 @@ func (g *pg) stmt(sb *strings.Builder) {
 			v := g.fresh("b")
 			sb.WriteString("local " + v + " = " + rel + "; ")
 			g.anys = append(g.anys, v)
+		}
+	case (c == 38 || c == 39) && g.meta: // object with the shared metatable, or a store through __newindex
+		if len(g.objs) > 0 && g.r(2) == 0 {
+			o := g.pick(g.objs)
+			sb.WriteString(o + []string{".nk", ".v", "[2]", ".nk2"}[g.r(4)] + " = " + g.num(1) + "; ")
+		} else {
+			o := g.fresh("o")
+			sb.WriteString("local " + o + " = setmetatable({v = " + g.num(1) + ", k = " + []string{"1", "2", "3"}[g.r(3)] + "}, MT); ")
+			g.objs = append(g.objs, o)
 		}
 	case c == 30: // small index local (a concrete table key that assignments may change)
 		k := g.fresh("k")
@@ -821,6 +874,21 @@ func (g *pg) funcDef(sb *strings.Builder) {
 	}
 }
 
+// pgMetaPrologue declares the metatable shared by the generated objects: every handler reports the event and
+// the kinds of its operands, and computes from the raw fields v (a number) and k (1, 2 or 3).
+const pgMetaPrologue = "local MT = {}; " +
+	"local function val(a) if type(a) == 'table' then return rawget(a, 'v') end; return a end; " +
+	"MT.__add = function(a, b) emit('add', type(a), type(b)); return val(a) + val(b) end; " +
+	"MT.__sub = function(a, b) emit('sub', type(a), type(b)); return val(a) - val(b) end; " +
+	"MT.__concat = function(a, b) emit('cat', type(a), type(b)); return 'c' end; " +
+	"MT.__eq = function(a, b) emit('eq'); return rawget(a, 'k') == rawget(b, 'k') end; " +
+	"MT.__lt = function(a, b) emit('lt'); return rawget(a, 'k') < rawget(b, 'k') end; " +
+	"MT.__le = function(a, b) emit('le'); return rawget(a, 'k') <= rawget(b, 'k') end; " +
+	"MT.__unm = function(a) emit('unm'); return -rawget(a, 'v') end; " +
+	"MT.__index = function(t, key) emit('idx', key); return 7 end; " +
+	"MT.__newindex = function(t, key, value) emit('nidx', key, value); rawset(t, key, value) end; " +
+	"MT.__call = function(self, ...) emit('call', select('#', ...)); return rawget(self, 'v'), ... end; "
+
 // pgen returns the k-th program of family seed.
 func pgen(seed, k int) string {
 	g := &pg{s: uint64(seed)<<32 ^ uint64(k), symc: 3, budget: 14}
@@ -831,6 +899,15 @@ func pgen(seed, k int) string {
 		sb.WriteString(c02ManyConsts(250 + g.r(12))) // constant indexes around the RK boundary
 	}
 	sb.WriteString("local fs = {}; local function pr(v) emit('pr', v); return v end; ")
+	if g.r(3) == 0 {
+		g.meta = true
+		sb.WriteString(pgMetaPrologue)
+		for i, v := range []string{"x", "(y + 1)"} {
+			o := g.fresh("o")
+			sb.WriteString("local " + o + " = setmetatable({v = " + v + ", k = " + itoa(i+1) + "}, MT); ")
+			g.objs = append(g.objs, o)
+		}
+	}
 	for g.budget > 0 {
 		g.stmt(&sb)
 	}
@@ -851,13 +928,16 @@ func pgen(seed, k int) string {
 	for _, t := range g.tabs {
 		sb.WriteString(", " + t + ".a, " + t + ".b, " + t + "[1], " + t + "[2]")
 	}
+	for _, o := range g.objs {
+		sb.WriteString(", rawget(" + o + ", 'v'), rawget(" + o + ", 'nk'), rawget(" + o + ", 2)")
+	}
 	sb.WriteString(")")
 	return sb.String()
 }
 
 // C01.gen — generated programs, whole pipeline against R-lua.
 //
-//verif:harness prop=C01,C02,C03,C05 tier=quick qparams=nprog:160 tparams=nprog:4000 bounds="generated program family pgen(seed, k), k < 160 (quick) / 4000 (thorough), seed = VERIF_SEED (default 0): about 14 statements each from the grammar in gen.go (locals, multiple assignment, if/loops/break/goto continue, functions with fixed and variable parameters, calls in every result context, tail calls, closures over loop variables, pcall/error values, constant folding); inputs x, y, z symbolic 32-bit integers; at most 3 input-dependent comparisons per program" maxpaths=4000 tmaxpaths=60000
+//verif:harness prop=C01,C02,C03,C04,C05 tier=quick qparams=nprog:160 tparams=nprog:4000 bounds="generated program family pgen(seed, k), k < 160 (quick) / 4000 (thorough), seed = VERIF_SEED (default 0): about 14 statements each from the grammar in gen.go (locals, multiple assignment, if/loops/break/goto continue, functions with fixed and variable parameters, calls in every result context, tail calls, closures over loop variables, pcall/error values, constant folding, one program in three with objects sharing a metatable that defines __add __sub __concat __eq __lt __le __unm __index __newindex __call); inputs x, y, z symbolic 32-bit integers; at most 3 input-dependent comparisons per program" maxpaths=4000 tmaxpaths=100000
 func H_C01_gen() {
 	k := VChoice(VParam("nprog", 160))
 	src := pgen(VParam("seed", 0), k)
